@@ -589,17 +589,16 @@ Qed.
 
 Record ginv (k : nat) (g : graph) (calls : list (list name)) (st : state) : Prop := mkGinv {
   gi_len : length (s_thr st) = length calls;
+  (* the lock is free: the cache is fully linked and every thread is at the entry of
+     Schema or blocked in Lock() *)
   gi_free : s_lock st = None ->
-      s_waitq st = [] /\ wf g (s_sh st) [] /\
-      (forall t th, nth_error (s_thr st) t = Some th -> t_pc th = PEnter);
+      wf g (s_sh st) [] /\
+      (forall t th, nth_error (s_thr st) t = Some th -> outside (t_pc th));
   gi_held : forall h, s_lock st = Some h ->
       exists th n rest, nth_error (s_thr st) h = Some th /\ t_calls th = n :: rest /\
         tinv g (s_sh st) n (t_pc th) /\
         (exists sh0, wf g sh0 [] /\ snap sh0 (s_sh st) (pc_stack (t_pc th))) /\
         (forall t th', t <> h -> nth_error (s_thr st) t = Some th' -> outside (t_pc th'));
-  gi_waitq : NoDup (s_waitq st) /\
-      (forall w, In w (s_waitq st) <-> exists th, nth_error (s_thr st) w = Some th /\ t_pc th = PWait);
-  gi_wait_calls : forall t th, nth_error (s_thr st) t = Some th -> t_pc th = PWait -> t_calls th <> [];
   gi_calls_ok : forall t th n, nth_error (s_thr st) t = Some th -> In n (t_calls th) -> n <> unsupported;
   gi_results : forall t th, nth_error (s_thr st) t = Some th ->
       exists j, Forall2 (char k g) (firstn j (nth t calls [])) (rev (t_results th)) /\
@@ -614,17 +613,14 @@ Proof.
     cbn in H. inversion H; subst. f_equal. symmetry. apply nth_error_nth. exact E. }
   split; cbn.
   - apply map_length.
-  - intros _. split; [reflexivity|]. split; [apply wf_empty|].
-    intros t th H. rewrite (Hth _ _ H). reflexivity.
+  - intros _. split; [apply wf_empty|].
+    intros t th H. rewrite (Hth _ _ H). left. reflexivity.
   - intros h H. discriminate.
-  - split; [constructor|]. intros w. split; [intros []|].
-    intros (th & H & Hp). rewrite (Hth _ _ H) in Hp. discriminate.
-  - intros t th H Hp. rewrite (Hth _ _ H) in Hp. discriminate.
   - intros t th n H Hin. rewrite (Hth _ _ H) in Hin. cbn in Hin. eapply Hok; eauto.
   - intros t th H. exists 0. rewrite (Hth _ _ H). cbn. split; [constructor | reflexivity].
 Qed.
 
-(* a thread that is neither at the entry nor queued holds the lock *)
+(* a thread that is neither at the entry nor blocked holds the lock *)
 Lemma inside_is_holder k g calls st t th :
   ginv k g calls st -> nth_error (s_thr st) t = Some th -> ~ outside (t_pc th) -> s_lock st = Some t.
 Proof.
@@ -632,7 +628,7 @@ Proof.
   - destruct (Nat.eq_dec t h) as [->|Hne]; [reflexivity|].
     destruct (gi_held _ _ _ _ I h El) as (thh & n & rest & _ & _ & _ & _ & Hout).
     exfalso. apply Hin. eapply Hout; eauto.
-  - destruct (gi_free _ _ _ _ I El) as (_ & _ & Hall). exfalso. apply Hin. left. eapply Hall; eauto.
+  - destruct (gi_free _ _ _ _ I El) as (_ & Hall). exfalso. apply Hin. eapply Hall; eauto.
 Qed.
 
 Lemma tinv_inside g sh n p : tinv g sh n p -> ~ outside p.
@@ -651,14 +647,6 @@ Proof.
   - cbn in H. subst l. cbn. split; reflexivity.
   - destruct l as [|y l]; [discriminate H|]. cbn [skipn] in H. destruct (IH _ H) as [E1 E2].
     split; [|exact E2]. change (firstn (S (S j)) (y :: l)) with (y :: firstn (S j) l). rewrite E1. reflexivity.
-Qed.
-
-Lemma NoDup_app_snoc {A} (l : list A) x : NoDup l -> ~ In x l -> NoDup (l ++ [x]).
-Proof.
-  induction l as [|y l IH]; intros ND Hx; cbn; [constructor; [intros []|constructor]|].
-  inversion ND; subst. constructor.
-  - rewrite in_app_iff. intros [H | [H | []]]; [tauto | subst; apply Hx; left; reflexivity].
-  - apply IH; [assumption | intros H; apply Hx; right; exact H].
 Qed.
 
 (* the characterisation of gstep for a thread inside its call *)
@@ -689,32 +677,28 @@ Proof.
   - rewrite nth_error_set_nth_neq in Ht' by congruence. eapply gi_calls_ok; eauto.
 Qed.
 
-Lemma ginv_enter_free st t th n rest :
+(* a thread at the entry of Schema, or blocked in Lock(), finds the lock free and takes it
+   (q' = whatever the book-keeping of the blocked goroutines becomes) *)
+Lemma ginv_acquire st t th n rest q' :
   ginv k g calls st -> nth_error (s_thr st) t = Some th -> t_calls th = n :: rest ->
-  t_pc th = PEnter -> s_lock st = None ->
-  ginv k g calls (mkState (reset_reg (s_sh st)) (Some t) (s_waitq st) (set_nth (s_thr st) t (with_pc th PLookup))).
+  s_lock st = None ->
+  ginv k g calls (mkState (reset_reg (s_sh st)) (Some t) q' (set_nth (s_thr st) t (with_pc th PLookup))).
 Proof.
-  intros I Ht Hc Hp El. destruct (gi_free _ _ _ _ I El) as (Hq & W & Hall).
+  intros I Ht Hc El. destruct (gi_free _ _ _ _ I El) as (W & Hall).
   split; cbn [s_sh s_lock s_waitq s_thr].
   - rewrite set_nth_length. exact (gi_len _ _ _ _ I).
   - discriminate.
   - intros h Hh. inversion Hh; subst h. exists (with_pc th PLookup), n, rest.
     split; [eapply nth_set_eq; eauto|]. split; [exact Hc|]. split; [apply reset_reg_wf; exact W|].
     split; [exists (reset_reg (s_sh st)); split; [apply reset_reg_wf; exact W | apply snap_start]|].
-    intros t' th' Hne Ht'. rewrite nth_error_set_nth_neq in Ht' by congruence. left. eapply Hall; eauto.
-  - rewrite Hq. split; [constructor|]. intros w. split; [intros []|].
-    intros (thw & Hw & Hpw). destruct (Nat.eq_dec w t) as [->|Hne].
-    + rewrite (nth_set_eq _ _ _ _ Ht) in Hw. inversion Hw; subst thw. discriminate Hpw.
-    + rewrite nth_error_set_nth_neq in Hw by congruence. rewrite (Hall _ _ Hw) in Hpw. discriminate.
-  - intros t' th' Ht' Hp'. destruct (Nat.eq_dec t' t) as [->|Hne].
-    + rewrite (nth_set_eq _ _ _ _ Ht) in Ht'. inversion Ht'; subst th'. discriminate Hp'.
-    + rewrite nth_error_set_nth_neq in Ht' by congruence. eapply gi_wait_calls; eauto.
+    intros t' th' Hne Ht'. rewrite nth_error_set_nth_neq in Ht' by congruence. eapply Hall; eauto.
   - eapply upd_calls_ok; eauto.
   - intros t' th' Ht'. destruct (Nat.eq_dec t' t) as [->|Hne].
     + rewrite (nth_set_eq _ _ _ _ Ht) in Ht'. inversion Ht'; subst th'. cbn. eapply gi_results; eauto.
     + rewrite nth_error_set_nth_neq in Ht' by congruence. eapply gi_results; eauto.
 Qed.
 
+(* a thread at the entry finds the lock held: it blocks *)
 Lemma ginv_enter_held st t th n rest h :
   ginv k g calls st -> nth_error (s_thr st) t = Some th -> t_calls th = n :: rest ->
   t_pc th = PEnter -> s_lock st = Some h ->
@@ -724,7 +708,6 @@ Proof.
   destruct (gi_held _ _ _ _ I h El) as (thh & nh & resth & Hh & Hch & Tinv & Snap & Hout).
   assert (Hth : t <> h).
   { intros ->. rewrite Ht in Hh. inversion Hh; subst thh. rewrite Hp in Tinv. exact Tinv. }
-  destruct (gi_waitq _ _ _ _ I) as [ND Hw].
   split; cbn [s_sh s_lock s_waitq s_thr].
   - rewrite set_nth_length. exact (gi_len _ _ _ _ I).
   - discriminate.
@@ -734,34 +717,10 @@ Proof.
     intros t' th' Hne Ht'. destruct (Nat.eq_dec t' t) as [->|Hne2].
     + rewrite (nth_set_eq _ _ _ _ Ht) in Ht'. inversion Ht'; subst th'. right. reflexivity.
     + rewrite nth_error_set_nth_neq in Ht' by congruence. eapply Hout; eauto.
-  - split.
-    + apply NoDup_app_snoc; [exact ND|]. intros Hin. apply Hw in Hin. destruct Hin as (th0 & H0 & Hp0).
-      rewrite Ht in H0. inversion H0; subst th0. congruence.
-    + intros w. rewrite in_app_iff. split.
-      * intros [Hin | [<- | []]].
-        -- apply Hw in Hin. destruct Hin as (thw & Hw0 & Hpw). exists thw.
-           assert (w <> t) by (intros ->; rewrite Ht in Hw0; inversion Hw0; subst; congruence).
-           split; [rewrite nth_error_set_nth_neq by congruence; exact Hw0 | exact Hpw].
-        -- exists (with_pc th PWait). split; [eapply nth_set_eq; eauto | reflexivity].
-      * intros (thw & Hw0 & Hpw). destruct (Nat.eq_dec w t) as [->|Hne].
-        -- right. left. reflexivity.
-        -- left. apply Hw. exists thw. rewrite nth_error_set_nth_neq in Hw0 by congruence. split; assumption.
-  - intros t' th' Ht' Hp'. destruct (Nat.eq_dec t' t) as [->|Hne].
-    + rewrite (nth_set_eq _ _ _ _ Ht) in Ht'. inversion Ht'; subst th'. cbn. rewrite Hc. discriminate.
-    + rewrite nth_error_set_nth_neq in Ht' by congruence. eapply gi_wait_calls; eauto.
   - eapply upd_calls_ok; eauto.
   - intros t' th' Ht'. destruct (Nat.eq_dec t' t) as [->|Hne].
     + rewrite (nth_set_eq _ _ _ _ Ht) in Ht'. inversion Ht'; subst th'. cbn. eapply gi_results; eauto.
     + rewrite nth_error_set_nth_neq in Ht' by congruence. eapply gi_results; eauto.
-Qed.
-
-Lemma holder_not_waiting st t th n :
-  ginv k g calls st -> nth_error (s_thr st) t = Some th -> tinv g (s_sh st) n (t_pc th) ->
-  ~ In t (s_waitq st).
-Proof.
-  intros I Ht Ti Hin. destruct (gi_waitq _ _ _ _ I) as [_ Hw]. apply Hw in Hin.
-  destruct Hin as (th0 & H0 & Hp). rewrite Ht in H0. inversion H0; subst th0.
-  rewrite Hp in Ti. exact Ti.
 Qed.
 
 (* the holder takes a step inside its call *)
@@ -774,21 +733,12 @@ Proof.
   intros I El Ht Hc Told Tnew Snew.
   destruct (gi_held _ _ _ _ I t El) as (thh & nh & resth & Hh & Hch & _ & _ & Hout).
   rewrite Ht in Hh. inversion Hh; subst thh. clear Hh.
-  destruct (gi_waitq _ _ _ _ I) as [ND Hw].
   split; cbn [s_sh s_lock s_waitq s_thr].
   - rewrite set_nth_length. exact (gi_len _ _ _ _ I).
   - rewrite El. discriminate.
   - intros h Hh. rewrite El in Hh. inversion Hh; subst h. exists (with_pc th p'), n, rest.
     split; [eapply nth_set_eq; eauto|]. split; [exact Hc|]. split; [exact Tnew|]. split; [exact Snew|].
     intros t' th' Hne Ht'. rewrite nth_error_set_nth_neq in Ht' by congruence. eapply Hout; eauto.
-  - split; [exact ND|]. intros w. rewrite Hw. destruct (Nat.eq_dec w t) as [->|Hne].
-    + split; intros (th0 & H0 & Hp0).
-      * rewrite Ht in H0. inversion H0; subst th0. rewrite Hp0 in Told. destruct Told.
-      * rewrite (nth_set_eq _ _ _ _ Ht) in H0. inversion H0; subst th0. cbn in Hp0. subst p'. destruct Tnew.
-    + rewrite nth_error_set_nth_neq by congruence. tauto.
-  - intros t' th' Ht' Hp'. destruct (Nat.eq_dec t' t) as [->|Hne].
-    + rewrite (nth_set_eq _ _ _ _ Ht) in Ht'. inversion Ht'; subst th'. cbn. rewrite Hc. discriminate.
-    + rewrite nth_error_set_nth_neq in Ht' by congruence. eapply gi_wait_calls; eauto.
   - eapply upd_calls_ok; eauto.
   - intros t' th' Ht'. destruct (Nat.eq_dec t' t) as [->|Hne].
     + rewrite (nth_set_eq _ _ _ _ Ht) in Ht'. inversion Ht'; subst th'. cbn. eapply gi_results; eauto.
@@ -796,7 +746,7 @@ Proof.
 Qed.
 
 (* the holder's call returns res, leaving the well-formed cache sh'': the result is
-   recorded and the lock handed on *)
+   recorded and the lock becomes free — whoever is scheduled next may take it *)
 Lemma ginv_finish st t th n rest sh'' res :
   ginv k g calls st -> s_lock st = Some t -> nth_error (s_thr st) t = Some th -> t_calls th = n :: rest ->
   tinv g (s_sh st) n (t_pc th) -> wf g sh'' [] -> char k g n res ->
@@ -806,8 +756,6 @@ Proof.
   intros I El Ht Hc Told W' Hchar.
   destruct (gi_held _ _ _ _ I t El) as (thh & nh & resth & Hh & Hch & _ & _ & Hout).
   rewrite Ht in Hh. inversion Hh; subst thh. clear Hh.
-  destruct (gi_waitq _ _ _ _ I) as [ND Hw].
-  pose proof (holder_not_waiting _ _ _ _ I Ht Told) as Hnw.
   (* the results of thread t after the call *)
   assert (Hres : exists j, Forall2 (char k g) (firstn j (nth t calls [])) (rev (t_results (finish_thread th res))) /\
                            t_calls (finish_thread th res) = skipn j (nth t calls [])).
@@ -818,71 +766,17 @@ Proof.
   assert (Hcok : forall t' th'' m, nth_error (set_nth (s_thr st) t (finish_thread th res)) t' = Some th'' ->
                    In m (t_calls th'') -> m <> unsupported).
   { eapply upd_calls_ok; eauto. intros m Hm. cbn in Hm. rewrite Hc in *. right. exact Hm. }
-  unfold release. cbn [s_sh s_lock s_waitq s_thr].
-  destruct (s_waitq st) as [|w q] eqn:Eq.
-  - (* nobody queued: the lock becomes free *)
-    assert (Hnowait : forall t' th', nth_error (s_thr st) t' = Some th' -> t_pc th' <> PWait).
-    { intros t' th' H' Hp'. assert (Hin : In t' []) by (apply Hw; eauto). exact Hin. }
-    split; cbn [s_sh s_lock s_waitq s_thr].
-    + rewrite set_nth_length. exact (gi_len _ _ _ _ I).
-    + intros _. split; [reflexivity|]. split; [exact W'|].
-      intros t' th' Ht'. destruct (Nat.eq_dec t' t) as [->|Hne].
-      * rewrite (nth_set_eq _ _ _ _ Ht) in Ht'. inversion Ht'; subst th'. reflexivity.
-      * rewrite nth_error_set_nth_neq in Ht' by congruence.
-        destruct (Hout _ _ Hne Ht') as [E|E]; [exact E | exfalso; eapply Hnowait; eauto].
-    + discriminate.
-    + split; [constructor|]. intros x. split; [intros []|]. intros (thx & Hx & Hpx).
-      destruct (Nat.eq_dec x t) as [->|Hne].
-      * rewrite (nth_set_eq _ _ _ _ Ht) in Hx. inversion Hx; subst thx. discriminate Hpx.
-      * rewrite nth_error_set_nth_neq in Hx by congruence. eapply Hnowait; eauto.
-    + intros t' th' Ht' Hp'. destruct (Nat.eq_dec t' t) as [->|Hne].
-      * rewrite (nth_set_eq _ _ _ _ Ht) in Ht'. inversion Ht'; subst th'. discriminate Hp'.
-      * rewrite nth_error_set_nth_neq in Ht' by congruence. eapply gi_wait_calls; eauto.
-    + exact Hcok.
-    + intros t' th' Ht'. destruct (Nat.eq_dec t' t) as [->|Hne].
-      * rewrite (nth_set_eq _ _ _ _ Ht) in Ht'. inversion Ht'; subst th'. exact Hres.
-      * rewrite nth_error_set_nth_neq in Ht' by congruence. eapply gi_results; eauto.
-  - (* hand-off to the first queued thread w *)
-    assert (Hwt : w <> t) by (intros ->; apply Hnw; left; reflexivity).
-    assert (Hwin : In w (w :: q)) by (left; reflexivity).
-    apply Hw in Hwin. destruct Hwin as (tw & Htw & Hpw).
-    rewrite nth_error_set_nth_neq by congruence. rewrite Htw.
-    pose proof (gi_wait_calls _ _ _ _ I _ _ Htw Hpw) as Hcw.
-    destruct (t_calls tw) as [|nw restw] eqn:Ecw; [congruence|].
-    inversion ND as [|? ? Hwq NDq]; subst.
-    assert (Htw1 : nth_error (set_nth (s_thr st) t (finish_thread th res)) w = Some tw).
-    { rewrite nth_error_set_nth_neq by congruence. exact Htw. }
-    split; cbn [s_sh s_lock s_waitq s_thr].
-    + rewrite !set_nth_length. exact (gi_len _ _ _ _ I).
-    + discriminate.
-    + intros h Hh. inversion Hh; subst h. exists (with_pc tw PLookup), nw, restw.
-      split; [eapply nth_set_eq; eauto|]. split; [exact Ecw|]. split; [apply reset_reg_wf; exact W'|].
-      split; [exists (reset_reg sh''); split; [apply reset_reg_wf; exact W' | apply snap_start]|].
-      intros t' th' Hne Ht'. rewrite nth_error_set_nth_neq in Ht' by congruence.
-      destruct (Nat.eq_dec t' t) as [->|Hne2].
-      * rewrite (nth_set_eq _ _ _ _ Ht) in Ht'. inversion Ht'; subst th'. left. reflexivity.
-      * rewrite nth_error_set_nth_neq in Ht' by congruence. eapply Hout; eauto.
-    + split; [exact NDq|]. intros x. destruct (Nat.eq_dec x w) as [->|Hxw].
-      * split; [intros Hin; contradiction|]. intros (thx & Hx & Hpx).
-        rewrite (nth_set_eq _ _ _ _ Htw1) in Hx. inversion Hx; subst thx. discriminate Hpx.
-      * rewrite nth_error_set_nth_neq by congruence. destruct (Nat.eq_dec x t) as [->|Hxt].
-        -- split.
-           ++ intros Hin. exfalso. apply Hnw. right. exact Hin.
-           ++ intros (thx & Hx & Hpx). rewrite (nth_set_eq _ _ _ _ Ht) in Hx. inversion Hx; subst thx. discriminate Hpx.
-        -- rewrite nth_error_set_nth_neq by congruence. rewrite <- Hw. cbn. split; [tauto|]. intros [E|H]; [congruence | exact H].
-    + intros t' th' Ht' Hp'. destruct (Nat.eq_dec t' w) as [->|Hne].
-      * rewrite (nth_set_eq _ _ _ _ Htw1) in Ht'. inversion Ht'; subst th'. discriminate Hp'.
-      * rewrite nth_error_set_nth_neq in Ht' by congruence. destruct (Nat.eq_dec t' t) as [->|Hne2].
-        -- rewrite (nth_set_eq _ _ _ _ Ht) in Ht'. inversion Ht'; subst th'. discriminate Hp'.
-        -- rewrite nth_error_set_nth_neq in Ht' by congruence. eapply gi_wait_calls; eauto.
-    + intros t' th' m Ht' Hm. destruct (Nat.eq_dec t' w) as [->|Hne].
-      * rewrite (nth_set_eq _ _ _ _ Htw1) in Ht'. inversion Ht'; subst th'. cbn in Hm. eapply Hcok; eauto.
-      * rewrite nth_error_set_nth_neq in Ht' by congruence. eapply Hcok; eauto.
-    + intros t' th' Ht'. destruct (Nat.eq_dec t' w) as [->|Hne].
-      * rewrite (nth_set_eq _ _ _ _ Htw1) in Ht'. inversion Ht'; subst th'. cbn. eapply gi_results; eauto.
-      * rewrite nth_error_set_nth_neq in Ht' by congruence. destruct (Nat.eq_dec t' t) as [->|Hne2].
-        -- rewrite (nth_set_eq _ _ _ _ Ht) in Ht'. inversion Ht'; subst th'. exact Hres.
-        -- rewrite nth_error_set_nth_neq in Ht' by congruence. eapply gi_results; eauto.
+  unfold release. split; cbn [s_sh s_lock s_waitq s_thr].
+  - rewrite set_nth_length. exact (gi_len _ _ _ _ I).
+  - intros _. split; [exact W'|].
+    intros t' th' Ht'. destruct (Nat.eq_dec t' t) as [->|Hne].
+    + rewrite (nth_set_eq _ _ _ _ Ht) in Ht'. inversion Ht'; subst th'. left. reflexivity.
+    + rewrite nth_error_set_nth_neq in Ht' by congruence. eapply Hout; eauto.
+  - discriminate.
+  - exact Hcok.
+  - intros t' th' Ht'. destruct (Nat.eq_dec t' t) as [->|Hne].
+    + rewrite (nth_set_eq _ _ _ _ Ht) in Ht'. inversion Ht'; subst th'. exact Hres.
+    + rewrite nth_error_set_nth_neq in Ht' by congruence. eapply gi_results; eauto.
 Qed.
 
 Lemma ginv_inside st t th n rest :
@@ -917,8 +811,10 @@ Proof.
   - (* PEnter *)
     unfold gstep. rewrite Ht, Hc, Hp. destruct (s_lock st) as [h|] eqn:El.
     + eapply ginv_enter_held; eauto.
-    + eapply ginv_enter_free; eauto.
-  - (* PWait *) unfold gstep. rewrite Ht, Hc, Hp. exact I.
+    + eapply ginv_acquire; eauto.
+  - (* PWait *)
+    unfold gstep. rewrite Ht, Hc, Hp. destruct (s_lock st) as [h|] eqn:El; [exact I|].
+    eapply ginv_acquire; eauto.
   - eapply ginv_inside; eauto. rewrite Hp. intros [E|E]; discriminate E.
   - eapply ginv_inside; eauto. rewrite Hp. intros [E|E]; discriminate E.
   - eapply ginv_inside; eauto. rewrite Hp. intros [E|E]; discriminate E.
